@@ -163,6 +163,10 @@ class C05(Check):
         node, table = M.resolve(js)
         schema = guard("parse-valid-schema", fastavro.parse_schema, js) if case.get("parsed") else js
         kw = {"codec": case["codec"], "sync_interval": case["sync_interval"], "metadata": dict(case["metadata"])}
+        if case.get("codec2") and case["codec2"] != case["codec"] and case["sync_interval2"] % 2 == 0:
+            # the caller's metadata dict already served another file with another codec
+            labels.add("fa2ref:metadata-dict-reused")
+            guard("write-container", fastavro.writer, io.BytesIO(), schema, [], codec=case["codec2"], metadata=kw["metadata"])
         if case.get("marker") is not None:
             kw["sync_marker"] = case["marker"]
         if case.get("level") is not None:
